@@ -49,11 +49,9 @@ package contractcourt
 
 import (
 	"bufio"
-	"encoding/hex"
 	"fmt"
 	"os"
 	"sort"
-	"sync"
 	"testing"
 	"time"
 
@@ -743,11 +741,6 @@ func vbfWalk(rng *vrng, ci, wi int, ty vbwType, victim *lnwallet.LightningChanne
 // ---------------------------------------------------------------------------
 // live mode: the real BreachArbitrator goroutines
 
-type vbfLive struct {
-	mu   sync.Mutex
-	publ chan *wire.MsgTx
-}
-
 func vbfDescribeTx(c *vbfChain, tx *wire.MsgTx) map[string]any {
 	d := map[string]any{"name": "published"}
 	ins := []map[string]any{}
@@ -1042,6 +1035,11 @@ func vbfLiveWalk(t *testing.T, rng *vrng, ci int, ty vbwType,
 			for i := 0; i < nc+nh+ns; i++ {
 				s := next()
 				if s == nil {
+					for _, got := range split {
+						d := vbfDescribeTx(chain, got)
+						d["name"] = "split"
+						pubs = append(pubs, d)
+					}
 					stp["published"] = pubs
 					steps = append(steps, stp)
 					return stall(fmt.Sprintf("block epoch past the split height: %d of "+
@@ -1314,5 +1312,4 @@ func TestVerifBrarFlow(t *testing.T) {
 			}
 		})
 	}
-	_ = hex.EncodeToString
 }
